@@ -1449,10 +1449,9 @@ class EdgeQLSourceGenerator(codegen.SourceGenerator):
         self._write_keywords('CREATE EXTENSION PACKAGE')
         self.write(' ')
         self.write(ident_to_str(node.name.name))
-        self._write_keywords(' MIGRATION FROM ')
-        self._write_keywords(' VERSION ')
+        self._write_keywords(' MIGRATION FROM VERSION ')
         self.visit(node.from_version)
-        self._write_keywords(' TO ')
+        self._write_keywords(' TO VERSION ')
         self.visit(node.to_version)
 
         if node.body.text:
@@ -1471,10 +1470,9 @@ class EdgeQLSourceGenerator(codegen.SourceGenerator):
         self._write_keywords('DROP EXTENSION PACKAGE')
         self.write(' ')
         self.write(ident_to_str(node.name.name))
-        self._write_keywords(' MIGRATION FROM ')
-        self._write_keywords(' VERSION ')
+        self._write_keywords(' MIGRATION FROM VERSION ')
         self.visit(node.from_version)
-        self._write_keywords(' TO ')
+        self._write_keywords(' TO VERSION ')
         self.visit(node.to_version)
 
     def visit_CreateExtension(
